@@ -94,6 +94,7 @@ func init() {
 	register("C02", "other", checkC02)
 	register("C03", "other", checkC03)
 	register("C06", "other", checkC06)
+	register("C15", "other", checkC15)
 	register("XERR", "other", func(res *Result) {
 		p := loadPub()
 		E := computeEffects(p)
